@@ -2,8 +2,9 @@
    and serialising the rebuilt condition gives the same data again.
    Model of the serialiser: SpecIO.v (cond1_to_json); of the parser: Spec.v (cond1_from_spec);
    of `==`: Eq.v (cond1_eqb).  The conditions are those of typed DSL trees (DocSem.v) whose
-   arguments are JSON values (no mapping: see the end of the file) or, where the class / callable
-   asks for types, type objects.  Facts about the generated tables T / X are closed by computation. *)
+   arguments are JSON values (mappings only without "path" in their keys: see `plain2` and the
+   counterexamples at the end of the file) or, where the class / callable asks for types, type
+   objects.  Facts about the generated tables T / X are closed by computation. *)
 From Coq Require Import ZArith NArith List Bool String Ascii Lia.
 From Valida Require Import Py Lang Defs Cond Dsl Check DocSem Path Cast Str SpecDefs RuleDefs RuleTerms
   Spec SpecIO SpecSpell Eq Inst RunSpec.
@@ -731,12 +732,15 @@ Qed.
 (* ================================================================== *)
 (* 3. the fragment; purity of what is written                           *)
 
-(* Arguments: JSON values taken literally by from_spec (`plain`: no mapping, no list with a
-   mapping item; this is part of leaf_in_c09), well-formed; under a `dtype` class and for
-   (keys_)is_instance, the known type objects (q_types_ok, part of leaf_in_c09).  Item names of
-   items_contain: pairwise distinct (they are keyword arguments), and as for C09. *)
+(* Arguments (plain2): JSON values that the serialiser does not escape and from_spec takes
+   literally -- scalars, lists, and mappings none of whose keys contains "path" and which are
+   not a single key reading `path[.m[.m]]` in some letter case (the same for mappings that are
+   list items or values of a mapping argument; deeper levels are unrestricted); well-formed
+   (distinct keys).  Under a `dtype` class and for (keys_)is_instance: the known type objects
+   (q_types_ok).  Item names of items_contain: pairwise distinct (they are keyword arguments),
+   and as for C09 (q_items_ok, q_wf). *)
 Definition leaf_in_c11 (c : scls) (q : dsl) : bool :=
-  leaf_in_c09 c q && q_items_ok q
+  class_ok c q && q_plain2 q && q_types_ok c q && q_wf q && q_items_ok q
   && (casts c q || forallb json_pure (q_args q))
   && forallb wf_val (q_args q) && q_nodup q.
 
@@ -745,13 +749,26 @@ Definition tree_in_c11 (t : qtree) : bool :=
   && (tree_depth t <=? 40)%nat && negb (qmixed (qnorm t)).
 
 Lemma leaf_in_c11_inv c q : leaf_in_c11 c q = true ->
-  leaf_in_c09 c q = true /\ q_items_ok q = true /\ (casts c q || forallb json_pure (q_args q)) = true
+  class_ok c q = true /\ q_plain2 q = true /\ q_types_ok c q = true /\ q_wf q = true /\ q_items_ok q = true
+  /\ (casts c q || forallb json_pure (q_args q)) = true
   /\ forallb wf_val (q_args q) = true /\ q_nodup q = true.
 Proof.
   unfold leaf_in_c11. intros H.
-  apply andb_true_iff in H as [H H5]. apply andb_true_iff in H as [H H4].
-  apply andb_true_iff in H as [H H3]. apply andb_true_iff in H as [H1 H2].
+  apply andb_true_iff in H as [H H8]. apply andb_true_iff in H as [H H7].
+  apply andb_true_iff in H as [H H6]. apply andb_true_iff in H as [H H5].
+  apply andb_true_iff in H as [H H4]. apply andb_true_iff in H as [H H3]. apply andb_true_iff in H as [H1 H2].
   repeat split; assumption.
+Qed.
+
+(* the fragment of C09 (with its side condition), restricted to JSON arguments, is included *)
+Lemma leaf_c09_in_c11 c q :
+  leaf_in_c09 c q = true -> q_items_ok q = true ->
+  (casts c q || forallb json_pure (q_args q)) = true -> forallb wf_val (q_args q) = true -> q_nodup q = true ->
+  leaf_in_c11 c q = true.
+Proof.
+  intros H9 Hit Hj Hw Hn. destruct (leaf_in_c09_inv c q H9) as [Hc [Hp [Ht Hq]]].
+  unfold leaf_in_c11. rewrite Hc, Ht, Hq, Hit, Hj, Hw, Hn.
+  unfold q_plain2. unfold q_plain in Hp. rewrite (forallb_impl _ _ _ plain_plain2 Hp). reflexivity.
 Qed.
 
 Lemma forallb_and {Y} (f g : Y -> bool) l :
@@ -780,8 +797,7 @@ Qed.
 
 Lemma leaf_args_ok c q : leaf_in_c11 c q = true -> forallb (arg_ok (casts c q)) (q_args q) = true.
 Proof.
-  intros H. destruct (leaf_in_c11_inv c q H) as [H9 [_ [Hj _]]].
-  destruct (leaf_in_c09_inv c q H9) as [_ [Hpl [Hty _]]].
+  intros H. destruct (leaf_in_c11_inv c q H) as [_ [Hpl [Hty [_ [_ [Hj _]]]]]].
   destruct (casts c q) eqn:Ec; cbn [arg_ok orb] in *.
   - exact (cast_args_types c q Hty Ec).
   - exact (forallb_and _ _ _ Hj Hpl).
@@ -894,14 +910,14 @@ Qed.
 
 (* what is written for a leaf parses (at any positive fuel) to the leaf *)
 Lemma leaf_json_parse c q f :
-  leaf_in_c09 c q = true -> q_items_ok q = true ->
+  class_ok c q = true -> q_plain2 q = true -> q_types_ok c q = true -> q_items_ok q = true ->
   exists t, self1 (S f) (leaf_json c q) = Ok (t, leaf_result c q).
 Proof.
-  intros Hin Hit. destruct (leaf_in_c09_inv c q Hin) as [Hcls [Hpl [Hty _]]].
+  intros Hcls Hpl Hty Hit.
   unfold leaf_json.
   rewrite self1_S, (step1_leaf _ _ _ (leaf_key_not_binop c q)), parse_leaf_head, (head_leaf c q Hcls).
   cbn [run_head]. destruct (conv_json c q Hty) as [v1 [H1 H2]]. rewrite H1. cbn [bind]. rewrite H2. cbn [bind].
-  exact (leaf_tail_ok c q Hcls Hpl Hit).
+  exact (leaf_tail_ok2 c q Hcls Hpl Hit).
 Qed.
 
 (* ================================================================== *)
@@ -955,8 +971,8 @@ Proof.
   induction t as [c q| |o a IHa b IHb]; intros f Hd Hin.
   - cbn [tree_depth] in Hd. destruct f as [|f]; [lia|].
     cbn [qnorm tree_json]. rewrite qmixed_leaf.
-    destruct (leaf_in_c11_inv c q (leaves_c11_leaf c q Hin)) as [H9 [Hit _]].
-    exact (leaf_json_parse c q f H9 Hit).
+    destruct (leaf_in_c11_inv c q (leaves_c11_leaf c q Hin)) as [Hc [Hp [Ht [_ [Hit _]]]]].
+    exact (leaf_json_parse c q f Hc Hp Ht Hit).
   - cbn [tree_depth] in Hd. destruct f as [|f]; [lia|].
     cbn [qnorm tree_json]. rewrite qmixed_null, self1_S, step1_null. eexists. reflexivity.
   - cbn [tree_depth] in Hd. destruct f as [|f]; [lia|].
@@ -1022,7 +1038,7 @@ Proof. unfold leaves_c11. rewrite qleaves_qnorm. reflexivity. Qed.
 Lemma leaves_refl_ok n : leaves_c11 n = true -> forallb leaf_refl_ok (qleaves n) = true.
 Proof.
   apply forallb_impl. intros [c q] H. cbn [fst snd] in H.
-  destruct (leaf_in_c11_inv c q H) as [_ [_ [_ [Hw Hn]]]]. unfold leaf_refl_ok. cbn [snd]. rewrite Hn, Hw. reflexivity.
+  destruct (leaf_in_c11_inv c q H) as [_ [_ [_ [_ [_ [_ [Hw Hn]]]]]]]. unfold leaf_refl_ok. cbn [snd]. rewrite Hn, Hw. reflexivity.
 Qed.
 
 (* ================================================================== *)
@@ -1085,3 +1101,143 @@ Proof.
   { unfold tree_in_c11. cbn [qleaves forallb fst snd tree_depth qnorm]. rewrite H, qmixed_leaf. reflexivity. }
   exact (C11_roundtrip_eq (QLeaf c q) _ Hin (tree_in_c11_builds _ Hin)).
 Qed.
+
+(* ================================================================== *)
+(* 7. non-vacuity                                                       *)
+
+Definition ex11_tree : qtree :=
+  QBin BoAnd
+    (QBin BoOr QNull
+       (QLeaf SValue (Q_in (VList [VInt 1; VStr "a"; VDict [(VStr "k", VList [VDict [(VStr "path", VInt 0)]])]]))))
+    (QBin BoXor
+       (QLeaf SValueDataType (Q_in (VList [VType TInt; VType TDict])))
+       (QBin BoAnd (QLeaf SValue (Q_items_contain [("a", VDict [(VStr "b", VNone)]); ("c", VFloat false 1 (-1))]))
+                   (QLeaf SValue (Q_is_instance [VType TStr; VType TPath])))).
+
+Example ex11_in : tree_in_c11 ex11_tree = true.
+Proof. vm_compute. reflexivity. Qed.
+
+Example ex11_json :
+  tree_json (qnorm ex11_tree) =
+  VDict [(VStr "and", VList [
+    VDict [(VStr "value.in_", VList [VInt 1; VStr "a"; VDict [(VStr "k", VList [VDict [(VStr "path", VInt 0)]])]])];
+    VDict [(VStr "xor", VList [
+      VDict [(VStr "value.dtype.in_", VList [VStr "int"; VStr "dict"])];
+      VDict [(VStr "and", VList [
+        VDict [(VStr "value.items_contain", VDict [(VStr "a", VDict [(VStr "b", VNone)]); (VStr "c", VFloat false 1 (-1))])];
+        VDict [(VStr "value.is_instance", VList [VStr "str"; VStr "path"])]])]])]])].
+Proof. vm_compute. reflexivity. Qed.
+
+(* the statement of the theorem, evaluated on the example (independently of its proof) *)
+Definition roundtrip (c : cond pyval) : res (pyval * bool * bool * pyval) :=
+  let c1 := cond_map pyval arg1 ALit c in
+  let* j := cond1_to_json T X c1 in
+  let* (_, c2) := cond1_from_spec T X j in
+  let* j2 := cond1_to_json T X c2 in
+  Ok (j, json_pure j, cond1_eqb T c2 c1, j2).
+
+Example ex11_roundtrip :
+  roundtrip (cond_of (qnorm ex11_tree)) = Ok (tree_json (qnorm ex11_tree), true, true, tree_json (qnorm ex11_tree)).
+Proof. vm_compute. reflexivity. Qed.
+
+(* a mapping argument, mappings in lists and as mapping values; nothing containing "path" at the
+   levels from_spec looks at *)
+Example ex11_mapping :
+  leaf_in_c11 SValue (Q_equal_to (VDict [(VStr "a", VInt 1); (VStr "b", VDict [(VStr "c", VList [VDict [(VStr "path", VNone)]])])])) = true.
+Proof. vm_compute. reflexivity. Qed.
+
+(* ================================================================== *)
+(* 8. outside the fragment the statement fails: closed counterexamples  *)
+(*    (components: JSON written, json_pure, rebuilt == original, JSON written again)            *)
+
+Definition L (c : scls) (q : dsl) : cond pyval := CLeaf (expected_leaf c q).
+
+(* (a) a mapping argument whose only key reads `path` in upper case is NOT escaped (the test is
+   `"path" in key`, case-sensitive) but from_spec lower-cases key tokens: it is rebuilt as a
+   DataPath argument.  Also true of the Python implementation: Value.equal_to({"PATH": []}). *)
+Example C11_counterexample_upper_path :
+  roundtrip (L SValue (Q_equal_to (VDict [(VStr "PATH", VList [])]))) =
+  Ok (VDict [(VStr "value.equal_to", VDict [(VStr "PATH", VList [])])], true, false,
+      VDict [(VStr "value.equal_to", VDict [(VStr "path", VList [])])])
+  /\ leaf_in_c11 SValue (Q_equal_to (VDict [(VStr "PATH", VList [])])) = false.
+Proof. vm_compute. split; reflexivity. Qed.
+
+Example C11_counterexample_upper_path_len :
+  roundtrip (L SValue (Q_equal_to (VDict [(VStr "Path.len", VList [])]))) =
+  Ok (VDict [(VStr "value.equal_to", VDict [(VStr "Path.len", VList [])])], true, false,
+      VDict [(VStr "value.equal_to", VDict [(VStr "path.length", VList [])])]).
+Proof. vm_compute. reflexivity. Qed.
+
+(* (b) the keyword mapping of items_contain( **items ) is never escaped: an item named `path`
+   makes the written mapping a path spec (Python: Value.items_contain(path=1) -> TypeError in
+   from_json_like; path=[] -> MalformedConditionLikeSpec) ... *)
+Example C11_counterexample_items_path :
+  roundtrip (L SValue (Q_items_contain [("path", VInt 1)])) = Err TypeError /\
+  roundtrip (L SValue (Q_items_contain [("path", VList [])])) = Err MalformedCond /\
+  cond1_to_json T X (cond_map pyval arg1 ALit (L SValue (Q_items_contain [("path", VInt 1)]))) =
+    Ok (VDict [(VStr "value.items_contain", VDict [(VStr "path", VInt 1)])]) /\
+  q_items_ok (Q_items_contain [("path", VInt 1)]) = false.
+Proof. vm_compute. repeat split. Qed.
+
+(* ... and an item name containing the escape code is un-escaped by from_spec *)
+Example C11_counterexample_items_escape :
+  roundtrip (L SValue (Q_items_contain [("\path", VInt 1)])) =
+  Ok (VDict [(VStr "value.items_contain", VDict [(VStr "\path", VInt 1)])], true, false,
+      VDict [(VStr "value.items_contain", VDict [(VStr "path", VInt 1)])])
+  /\ q_items_ok (Q_items_contain [("\path", VInt 1)]) = false.
+Proof. vm_compute. split; reflexivity. Qed.
+
+(* (c) tuples are written as lists (not JSON-representable arguments) *)
+Example C11_counterexample_tuple :
+  roundtrip (L SValue (Q_in (VTuple [VInt 1; VInt 2]))) =
+  Ok (VDict [(VStr "value.in_", VList [VInt 1; VInt 2])], true, false, VDict [(VStr "value.in_", VList [VInt 1; VInt 2])]).
+Proof. vm_compute. reflexivity. Qed.
+
+(* (d) a type object where no type conversion applies is written as itself: not JSON *)
+Example C11_counterexample_type :
+  roundtrip (L SValue (Q_equal_to (VType TInt))) =
+  Ok (VDict [(VStr "value.equal_to", VType TInt)], false, true, VDict [(VStr "value.equal_to", VType TInt)]).
+Proof. vm_compute. reflexivity. Qed.
+
+(* (e) a mapping argument with an escaped key: equal condition, but the un-escaped keys move to
+   the end, so the data written again is the same mapping only up to `==` (key order) *)
+Example C11_counterexample_key_order :
+  roundtrip (L SValue (Q_equal_to (VDict [(VStr "path", VInt 1); (VStr "a", VInt 2)]))) =
+  Ok (VDict [(VStr "value.equal_to", VDict [(VStr "\path", VInt 1); (VStr "a", VInt 2)])], true, true,
+      VDict [(VStr "value.equal_to", VDict [(VStr "a", VInt 2); (VStr "\path", VInt 1)])])
+  /\ py_eq (VDict [(VStr "\path", VInt 1); (VStr "a", VInt 2)]) (VDict [(VStr "a", VInt 2); (VStr "\path", VInt 1)]) = true.
+Proof. vm_compute. split; reflexivity. Qed.
+
+(* (f) model only (keyword arguments cannot repeat in Python): `==` of the model is not reflexive
+   on a repeated item name *)
+Example C11_counterexample_dup_items :
+  let c1 := cond_map pyval arg1 ALit (L SValue (Q_items_contain [("a", VInt 1); ("a", VInt 2)])) in
+  cond1_eqb T c1 c1 = false.
+Proof. vm_compute. reflexivity. Qed.
+
+(* ================================================================== *)
+(* Coverage.  All 32 constructors of the typed DSL on every class that has them (`covered q` is
+   constantly true); trees of depth <= 40 (the fuel of the parser model).
+   NOT covered (remaining):
+   - mapping arguments, mapping items of list arguments and mapping values of mapping arguments
+     one of whose keys contains "path" (the serialiser escapes them, from_spec un-escapes and
+     REORDERS them).  There `c2 = c1` and `cond1_to_json T X c2 = Ok j` are false (example (e));
+     the statement that is expected to hold is
+       exists j tm c2 j2, cond1_to_json T X c1 = Ok j /\ json_pure j = true /\
+         cond1_from_spec T X j = Ok (tm, c2) /\ cond1_eqb T c2 c1 = true /\
+         cond1_to_json T X c2 = Ok j2 /\ py_eq j2 j = true
+     under the extra hypothesis that no such mapping is, after lower-casing, a single-key
+     `path[.m[.m]]` mapping without a lower-case "path" in the key (example (a)).  It needs
+     str_replace "\path" "path" (str_replace "path" "\path" k) = k and dict equality up to
+     permutation; not attempted.
+   - data-path arguments (APath): the model of conditions built by the typed DSL (expected_leaf /
+     cond_of) has literal arguments only.
+   Hypotheses added w.r.t. the informal property: q_items_ok (examples (b)), q_nodup (example
+   (f)), plain2 (examples (a), (e)), no tuples / non-JSON values (examples (c), (d)),
+   wf_val (distinct mapping keys: needed for `v == v`). *)
+
+Print Assumptions py_eq_refl_wf.
+Print Assumptions leaf_c09_in_c11.
+Print Assumptions C11_leaf.
+Print Assumptions C11_roundtrip_eq.
+Print Assumptions C11_roundtrip.
